@@ -47,12 +47,40 @@ def equal_case(t_st, u_st, dtype, tag):
     return c
 
 
+def tiling_cases(rng, dtype):
+    """two patterns with DISJOINT supports that together cover the whole shape (each backs one summand of a disjoint
+    union), defaults that differ, and stored values equal or close to the OTHER tensor's default: the defaults are
+    invisible, the dense tensors are equal / close although the patterns share nothing"""
+    cases = []
+    for _ in range(4):
+        na, nb = rng.choice([1, 2]), rng.choice([1, 2])
+        m = rng.choice([0, 2])                      # an optional second, dense axis
+        dt, du = rng.choice([(0.0, 1.0), (1.0, 0.0), (0.5, 3.0), (2.0, -1.0)])
+        eps = rng.choice([0.0, 0.0, 0.25])
+        def mk(b, size, a, default, val, sid):
+            term = {'k': 'P', 'id': sid, 'n': size} if size > 1 else {'k': 'X', 'fs': []}
+            ps = [{'id': sid, 'n': size}] if size > 1 else []
+            vs = [{'k': 'S', 'b': b, 't': term, 'a': a}]
+            cnt = size
+            if m:
+                ps.append({'id': sid + 1, 'n': m})
+                vs.append({'k': 'P', 'id': sid + 1, 'n': m})
+                cnt *= m
+            return {'ps': ps, 'vs': vs, 'd': default, 'ph': [val] * cnt}
+        t = mk(0, na, nb, dt, du + eps, 1)          # backs the first summand, stores (about) u's default
+        u = mk(na, nb, 0, du, dt, 50)               # backs the second summand, stores t's default
+        cases.append(equal_case(t, u, dtype, ['tiling', 'eps' if eps else 'exact']))
+        cases.append(equal_case(u, t, dtype, ['tiling', 'rev', 'eps' if eps else 'exact']))
+    return cases
+
+
 def drive_shape(args):
     import torch
     types, seed, n = args
     rng = rng_for(seed, 'c13' + repr(types))
     cases = []
     dtype = torch.float64
+    cases.extend(tiling_cases(rng, dtype))
     for i in range(n):
         d = rng.choice([0.0, 0.0, 1.0, 0.5, math.inf, -math.inf])
         a = quarter_values(rng, PT.gen_pattern(rng, types, default=d, start_id=1))
